@@ -297,15 +297,19 @@ open Node
 def SplitT (R : (Node × Node) × St) (s : St) : Prop :=
   tgood R.2.idents R.1.1 = true ∧ tgood R.2.idents R.1.2 = true ∧ IdSub s R.2
 
+theorem tgood_seqOperand (σ) (e : Node) : tgood σ (seqOperand e) = tgood σ e := by
+  unfold seqOperand; split <;> simp
+
 theorem hoistTargetPart_T (e : Node) (sp : Span) (s : St) (he : tgood s.idents e = true) :
     SplitT (hoistTargetPart e sp s) s := by
   unfold hoistTargetPart
   simp only [run_bind]
-  rcases getTemporalIdent_casesT e [] sp .expr s with ⟨hl, h⟩ | ⟨hl, n, s', h, hi, hn⟩
-  · rw [h]; simp only [run_pure]; exact ⟨he, he, IdSub.refl s⟩
+  have he' : tgood s.idents (seqOperand e) = true := by rw [tgood_seqOperand]; exact he
+  rcases getTemporalIdent_casesT (seqOperand e) [] sp .expr s with ⟨hl, h⟩ | ⟨hl, n, s', h, hi, hn⟩
+  · rw [h]; simp only [run_pure]; exact ⟨he', he', IdSub.refl s⟩
   · rw [h]
     simp only [List.nil_append, List.getLast?_singleton, run_pure]
-    exact ⟨by simp [tempIdent, assignRight, tgood_lift hi he, hn], by simp [tempIdent, hn], hi⟩
+    exact ⟨by simp [tempIdent, assignRight, tgood_lift hi he', hn], by simp [tempIdent, hn], hi⟩
 
 theorem splitComputedKey_T (csp : Span) (e : Node) (sp : Span) (s : St) (he : tgood s.idents e = true) :
     SplitT (splitComputedKey csp e sp s) s := by
